@@ -153,6 +153,62 @@ Definition local_peaks (cms : list (list cmap)) (thr : Q) (r : nat) : list rpeak
   let '(C, _, _) := dims cms in
   map (refine_peak (concat cms) C r) (local_peaks_rough cms thr).
 
+(* ---- any patch size p >= 1 (integral_patch_size itself, not the radius) ----
+
+   make_centered_bboxes((x,y), p, p) has corners x -+ (p-1)/2, and crop_bboxes asks
+   kornia for p x p samples: sample k (0 <= k < p) sits at offset k - (p-1)/2 from the
+   grid cell — an integer for odd p, a half-integer for even p = 2h.  kornia's
+   crop_and_resize samples bilinearly with zero padding, so a sample at a half-pixel
+   position (y + dy - 1/2, x + dx - 1/2) is exactly the mean of the four surrounding
+   cells, cells outside the map counting 0 (determined empirically for H, W >= 2, tied
+   by the harness on every run; for H = 1 or W = 1 kornia replicates the singleton
+   axis, which yields the same offsets — tied at the find_*_peaks level).
+   gv = arange(p) - (p-1)/2 = k - h + 1/2 for p = 2h. *)
+
+(* sample offsets dy with position dy - 1/2:  -h+1 .. h *)
+Definition ezrange (h : nat) : list Z :=
+  map (fun k => (Z.of_nat k - Z.of_nat h + 1)%Z) (seq 0 (2 * h)).
+
+(* bilinear sample at (y - 1/2, x - 1/2): the mean of the 2x2 cells around it *)
+Definition samp4 (m : cmap) (y x : Z) : Q :=
+  (cell0 m (y - 1) (x - 1) + cell0 m (y - 1) x + cell0 m y (x - 1) + cell0 m y x) / 4.
+
+Definition epatch (m : cmap) (y x : nat) (h : nat) : list (list Q) :=
+  map (fun dy => map (fun dx => samp4 m (Z.of_nat y + dy) (Z.of_nat x + dx)) (ezrange h))
+      (ezrange h).
+
+Definition egv (h : nat) : list Q := map (fun k => inject_Z k - (1 # 2)) (ezrange h).
+
+Definition patch_p (m : cmap) (y x : nat) (p : nat) : list (list Q) :=
+  if Nat.even p then epatch m y x (p / 2) else patch m y x (p / 2).
+
+Definition gv_p (p : nat) : list Q := if Nat.even p then egv (p / 2) else gv (p / 2).
+
+Definition refine_at_p (m : cmap) (x y p : nat) : option (Q * Q) :=
+  match integral_offset (gv_p p) (gv_p p) (patch_p m y x p) with
+  | Some (dx, dy) => Some (inject_Z (Z.of_nat x) + dx, inject_Z (Z.of_nat y) + dy)
+  | None => None
+  end.
+
+Definition refine_peak_p (flat : list cmap) (C p : nat) (pk : peak) : rpeak :=
+  let '(x, y, v, s, c) := pk in
+  (match nth_error flat (box_index C s c) with
+   | Some m => refine_at_p m x y p
+   | None => None
+   end, v, s, c).
+
+(* find_local_peaks(cms, thr, "integral", p) for any integral_patch_size p >= 1 *)
+Definition local_peaks_p (cms : list (list cmap)) (thr : Q) (p : nat) : list rpeak :=
+  let '(C, _, _) := dims cms in
+  map (refine_peak_p (concat cms) C p) (local_peaks_rough cms thr).
+
+Definition crop_all_p (imgs : list cmap) (centres : list (nat * nat)) (inds : list nat) (p : nat)
+  : list (list (list Q)) :=
+  map (fun ci => match nth_error imgs (snd ci) with
+                 | Some m => patch_p m (snd (fst ci)) (fst (fst ci)) p
+                 | None => []
+                 end) (combine centres inds).
+
 (* make_centered_bboxes for one centroid: tl, tr, br, bl *)
 Definition centered_bbox (x y : Q) (bh bw : nat) : list (Q * Q) :=
   let hh := inject_Z (Z.of_nat bh) / 2 in
@@ -175,6 +231,10 @@ Definition nonneg_patch (P : list (list Q)) : bool := forallb (forallb (Qle_bool
 Definition selector_F9 (m : cmap) (y x r : nat) : bool :=
   negb (nonneg_patch (patch m y x r) && Qltb 0 (cell0 m (Z.of_nat y) (Z.of_nat x))).
 
+(* the same selector for any patch size p: the cells a p x p patch reads lie within
+   radius p/2 of the peak (p/2 = r for p = 2r+1, = h for p = 2h) *)
+Definition selector_F9_p (m : cmap) (y x p : nat) : bool := selector_F9 m y x (p / 2).
+
 (* ---- harness interface ---- *)
 
 Inductive case :=
@@ -182,7 +242,9 @@ Inductive case :=
 | CRefine (cms : list (list cmap)) (thr : Q) (r : nat)
 | CCrop (imgs : list cmap) (centres : list (nat * nat)) (inds : list nat) (r : nat)
 | CIntReg (xv yv : list Q) (Ps : list (list (list Q)))
-| CBox (x y : Q) (bh bw : nat).
+| CBox (x y : Q) (bh bw : nat)
+| CRefineP (cms : list (list cmap)) (thr : Q) (p : nat)
+| CCropP (imgs : list cmap) (centres : list (nat * nat)) (inds : list nat) (p : nat).
 
 Inductive result :=
 | RRough (l : list peak)
@@ -198,6 +260,8 @@ Definition run (c : case) : result :=
   | CCrop imgs cs inds r => RPatches (crop_all imgs cs inds r)
   | CIntReg xv yv Ps => ROffsets (map (integral_offset xv yv) Ps)
   | CBox x y bh bw => RBox (centered_bbox x y bh bw)
+  | CRefineP cms thr p => RRefined (local_peaks_p cms thr p)
+  | CCropP imgs cs inds p => RPatches (crop_all_p imgs cs inds p)
   end.
 
 Definition rcomma : rdr := rchr ","%char.
